@@ -34,7 +34,7 @@ SPEC = dict(
     floors=T({"directories-whose-makefile-runs-the-tools-of-its-markers": 90, "dirs-twin-named-like-something-the-analyser-knows": 120, "requests-with-a-carried-boost-map": 1000, "databases-with-a-word-in-every-entry": 10, "queries-of-a-ubiquitous-and-a-misspelt-word": 35, "dirs-twin-inside-other-projects": 100, "crowded-directories-over-4096": 4, "requests-with-over-400-candidates": 8, "frequent-word-queries": 10, "cli-context-pairs-in-project": 80, "cli-context-raised-a-score": 6, "evaluations": 11000, "distinct_nontrivial": 3500, "pairs-nlp-off": 3000, "pairs-nlp-on": 3000, "pairs-pipeline": 3000,
               "boost-effective": 2000, "shipped": 150, "entries-unrelated-checked": 20000, "entries-related-checked": 20000,
               "dirs": 1900, "dirs-generic": 200, "dirs-multi": 700, "package-json-valid": 100, "package-json-broken": 100, "makefile": 250},
-             {"directories-whose-makefile-runs-the-tools-of-its-markers": 2000, "dirs-twin-named-like-something-the-analyser-knows": 3000, "requests-with-a-carried-boost-map": 30000, "databases-with-a-word-in-every-entry": 300, "queries-of-a-ubiquitous-and-a-misspelt-word": 1000, "dirs-twin-inside-other-projects": 3000, "crowded-directories-over-4096": 100, "requests-with-over-400-candidates": 100, "frequent-word-queries": 150, "evaluations": 110000, "distinct_nontrivial": 35000, "pairs-nlp-off": 30000, "pairs-nlp-on": 30000, "pairs-pipeline": 30000,
+             {"directories-whose-makefile-runs-the-tools-of-its-markers": 90, "dirs-twin-named-like-something-the-analyser-knows": 3000, "requests-with-a-carried-boost-map": 30000, "databases-with-a-word-in-every-entry": 300, "queries-of-a-ubiquitous-and-a-misspelt-word": 1000, "dirs-twin-inside-other-projects": 3000, "crowded-directories-over-4096": 100, "requests-with-over-400-candidates": 100, "frequent-word-queries": 150, "evaluations": 110000, "distinct_nontrivial": 35000, "pairs-nlp-off": 30000, "pairs-nlp-on": 30000, "pairs-pipeline": 30000,
               "boost-effective": 20000, "shipped": 1500, "entries-unrelated-checked": 200000, "entries-related-checked": 200000,
               "dirs": 19000, "dirs-generic": 2000, "dirs-multi": 7000, "package-json-valid": 1000, "package-json-broken": 1000, "makefile": 2500}),
     assumptions=[
